@@ -20,6 +20,16 @@ package main
 //	               recorded for the delegated zone, other clients resolve it;
 //	kill switch    rfc9520=false: every query reaches the authorities, nothing
 //	               is recorded.
+//	lame           (full_ext.go) zones with 2..6 server addresses, k failing
+//	               (rcode / silent), h healthy, the healthy reply held back
+//	               until every failure reply was sent: zone failure only if h = 0;
+//	cdfail         (full_ext.go) question failures from resolver errors that
+//	               are no zone failures (unusable referrals, max depth, DS
+//	               mismatch), dnssec on and off: filed under, and suppressing,
+//	               exactly the CD value that failed;
+//	shed-nsaddr-multi (full_nsmulti.go) shed-nsaddr with >= 2 glue-less NS
+//	               hosts: shed and really failing address lookups in both
+//	               walk orders; zone failure only if every host really failed.
 //
 // "Went upstream" = at least one packet in the authsim packet log during the
 // request. "Suppressed" = SERVFAIL reply with zero packets.
@@ -51,7 +61,7 @@ import (
 )
 
 type fullSpec struct {
-	Scenario string `json:"scenario"` // zones | dead | client | shed-global | shed-zone | enforce | killswitch | enrich | shed-nsaddr | lame | cdfail
+	Scenario string `json:"scenario"` // zones | dead | client | shed-global | shed-zone | enforce | killswitch | enrich | shed-nsaddr | lame | cdfail | shed-nsaddr-multi
 	MinMS    int64  `json:"min_ms"`   // 0 = default
 	MaxMS    int64  `json:"max_ms"`
 	Half     string `json:"half"`             // behaviour of the failing server of the partly-alive zone: refused | servfail | drop
@@ -111,6 +121,7 @@ type fullRun struct {
 	lame    []*fullZone       // scenario lame: zones with 2..6 server addresses, k of them failing
 	broken  map[string]string // scenario cdfail: apex -> variant of zones whose servers only send unusable referrals
 	cdv     []*cdVariant
+	nsr     []*nsRound // scenario shed-nsaddr-multi
 }
 
 type fout struct {
@@ -227,6 +238,8 @@ func newFullRun(r *vlib.Run, c fullCase) (*fullRun, error) {
 		f.buildLame(tld)
 	case "cdfail":
 		f.buildCDFail(root, tld)
+	case "shed-nsaddr-multi":
+		f.buildNSMulti(tld)
 	}
 	for _, z := range f.zones {
 		f.applyMode(z)
@@ -243,7 +256,7 @@ func newFullRun(r *vlib.Run, c fullCase) (*fullRun, error) {
 		switch c.Spec.Scenario {
 		case "shed-global":
 			cfg.MaxConcurrentQueries = 6
-		case "shed-zone", "shed-nsaddr":
+		case "shed-zone", "shed-nsaddr", "shed-nsaddr-multi":
 			cfg.MaxConcurrentQueries = 256 // per-zone quota max(256/16,16) = 16
 		case "enforce":
 			cfg.RecursionFirewall.Mode = config.RecursionFirewallModeEnforce
@@ -623,6 +636,11 @@ func (f *fullRun) checkState(idx int, tag string) {
 				r.Violation("zone/recorded-partly-alive", "full pipeline: a zone failure was recorded for a zone one server of which answers every query: "+desc, f.replay())
 			case !f.failed[name]:
 				r.Violation("zone/recorded-healthy", "full pipeline: a zone failure was recorded for a zone none of whose servers is scripted to fail: "+desc, f.replay())
+			case f.zones[name] != nil && f.zones[name].mode == "perq":
+				// a helper zone scripted to fail single questions (NS host
+				// addresses): internal sub-lookups record it on their own
+				// schedule; it is not the subject of any verdict
+				r.Count("full_state_helper_zone_failure_seen", 1)
 			case me == nil || !me.Ever:
 				r.Violation("state/unexplained-failure-entry", "full pipeline: zone failure state without any failed resolution observed at its authorities: "+desc, f.replay())
 			case me.Tomb:
@@ -1308,6 +1326,8 @@ func runFullCase(r *vlib.Run, c fullCase) {
 		f.scenarioLame()
 	case "cdfail":
 		f.scenarioCDFail()
+	case "shed-nsaddr-multi":
+		f.scenarioShedNSAddrMulti()
 	}
 	if r.ReplayCase() != nil {
 		for _, o := range f.c.Ops {
@@ -1326,7 +1346,7 @@ func fullSpecFor(r *vlib.Run, i int) fullSpec {
 	rng := r.RandN("full", i)
 	// the scenario mix is a fixed function of the index
 	scens := []string{"zones", "client", "shed-global", "shed-zone", "enforce", "killswitch", "zones", "dead", "enrich", "shed-nsaddr",
-		"lame", "cdfail", "lame", "cdfail"}
+		"lame", "cdfail", "lame", "cdfail", "shed-nsaddr-multi"}
 	scen := scens[i%len(scens)]
 	b := fullBounds[rng.IntN(len(fullBounds))]
 	sp := fullSpec{Scenario: scen, MinMS: b[0], MaxMS: b[1], Half: []string{"refused", "servfail", "drop"}[rng.IntN(3)], Seed: rng.Uint64()}
@@ -1340,7 +1360,7 @@ func fullSpecFor(r *vlib.Run, i int) fullSpec {
 }
 
 func runFullChild(r *vlib.Run) {
-	n := r.N(14, 420)
+	n := r.N(15, 420)
 	for i := 0; i < n; i++ {
 		runFullCase(r, fullCase{Kind: "full", Index: i, Spec: fullSpecFor(r, i)})
 		r.Progress("full case %d/%d", i+1, n)
